@@ -612,6 +612,26 @@ func (c *fileCtx) fsRules() {
 	})
 }
 
+// fnEntryRules (rule set "fnentry"): a scheduling point at the entry of every function, for packages
+// that have no synchronisation of their own but whose shared state (package variables, caller-owned
+// ASTs) must not be observable across concurrent callers (C05).
+func (c *fileCtx) fnEntryRules() {
+	for _, d := range c.file.Decls {
+		fd, ok := d.(*ast.FuncDecl)
+		if !ok || fd.Body == nil || fd.Name.Name == "init" {
+			continue
+		}
+		pos := c.fset.Position(fd.Body.Lbrace)
+		h := uint32(2166136261)
+		for _, b := range []byte(fmt.Sprintf("%s:%d:%s", filepath.Base(pos.Filename), pos.Line, fd.Name.Name)) {
+			h = (h ^ uint32(b)) * 16777619
+		}
+		c.insert(fd.Body.Lbrace+1, fmt.Sprintf(" simrt.YieldAt(%d);", h), false, fd.Body)
+		c.needRT = true
+		c.site("R8.fnentry")
+	}
+}
+
 func importName(f *ast.File, path string) (string, bool) {
 	for _, im := range f.Imports {
 		if strings.Trim(im.Path.Value, `"`) == path {
@@ -731,6 +751,9 @@ func main() {
 			}
 			if strings.Contains(*rules, "fs") {
 				c.fsRules()
+			}
+			if strings.Contains(*rules, "fnentry") {
+				c.fnEntryRules()
 			}
 			if len(c.edits) == 0 && len(c.errs) == 0 {
 				continue
